@@ -246,6 +246,7 @@ def run_typed(res, tier, want):
 @family("C20")
 def check_typed(prop, tier, replay):
     res = vlib.Result(prop, tier, "other")
+    mgen, mdist, mnames = vlib.model_check_all([("Typed", "Typed.cfg")])
     st = run_typed(res, tier, TYPED_CLASSES)
     lines, snaps, reqs, pkgs, samples = st["lines"], st["snaps"], st["reqs"], st["pkgs"], st["samples"]
     # the generated joins: each of them against the reference selection (the replication controller's own
@@ -256,7 +257,7 @@ def check_typed(prop, tier, replay):
         "evaluations": snaps + reqs, "distinct_nontrivial": snaps + reqs,
         "samples": samples, "packages": sorted(pkgs), "snapshots": snaps, "requests": reqs,
         "joins": sorted(js["joins"]), "join_snapshots": js["snaps"],
-        "states": lines + js["lines"], "transitions": lines + js["lines"],
+        "states": mdist + lines + js["lines"], "transitions": mgen + lines + js["lines"], "design_models": mnames,
         "checker_cmd": "tlc trace/TypedRecords.tla over records of `harness typed`",
     }
     res.assumptions = ["both controllers list the same server state (no mutation until both are ready), so their event sequences are comparable element by element",
